@@ -87,6 +87,10 @@ THEOREMS = [
     'Nb.C14.gen_lock_rules_eq',
     'Nb.C14.gen_getUnscaled_eq',
     'Nb.C14.lock_discipline_record',
+    # phase 3: byte layer, length half
+    'Nb.C14.mkFile_length',
+    'Nb.C14.hbytes_mkFile',
+    'Nb.C14.thread_results_eq_numpy_mkFile_partial',
 ]
 ASSUMPTIONS = [
     'hand-written small-step Lean model (Model/C14.lean) of the lock/seek/read/opener-slot steps of '
@@ -102,20 +106,37 @@ ASSUMPTIONS = [
     'of a successfully memory-mapped real file are taken from the file contents (OS mmap contract)',
     'segments of a sliced read come from the C06 model (calcSlicedefs with the default threshold heuristic); '
     'NumPy basic indexing is the reference for the expected per-thread result',
-    'ArrayProxy.reshape creates a new lock over the same handle: outside the property (copy() only), not checked '
-    'on the real code; recorded as the observation theorem reshape_new_lock_counterexample (not safe)',
-    'end-to-end theorems (*_partial): the byte layer — that the file stores element q little-endian at '
-    'off+isz*q and decodeLE reads it back, i.e. hypotheses SReq.OK.hbytes/hdec — is assumed (checked by `decide` '
-    'on the example and by the correspondence stream on every case); whole-array requests are covered up to '
+    'ArrayProxy.reshape and copy.copy()/unpickling (__setstate__) create a new lock over the same handle: outside '
+    'the property (copy() only) - the oracle does not demand correct data for reads mixing copy()-families, but the '
+    'correspondence streams topo/random-topo run them on the real code and the model predicts the observed '
+    'interference exactly (observation theorems reshape_new_lock_counterexample, setstate_new_lock_counterexample; '
+    'general statement noncopy_takes_new_lock)',
+    'source tie: Generated/C14Src.lean (lock/seek/read skeletons of read_segments, _get_unscaled, fileslice and the '
+    'lock rules of copy/__setstate__/reshape) and Generated/C14Lock.lean (lexical lock-discipline record of '
+    'fileslice.py and arrayproxy.py) are extracted from the AST of the working tree on every run by a purely '
+    'syntactic walk that fails loudly on shapes it does not understand; trusted: that walk (c14.py), and that '
+    'volumeutils.array_from_file touches the file only through the seek/readinto/read it is observed to perform '
+    '(array_from_file itself is not translated; its memmap attempt is the np.memmap contract)',
+    'end-to-end theorems (*_partial): of the byte layer the LENGTH of the bytes read is proved on the driver file '
+    '(hbytes_mkFile); that decodeLE reads the little-endian element bytes back (hypothesis SReq.OKd.hdec / '
+    'SReq.OK.hdec) is still assumed (checked by `decide` on the example and by the correspondence stream on every '
+    'case); whole-array requests are covered up to '
     '"result = decoder(single-threaded bytes)" (results_eq_single_threaded), not composed with NumPy',
 ]
-RULE = ('cases = (scenario in {proxy over open BytesIO handle, reads through it and through its copy(), '
-        'keep_file_open=True proxy on a real file} x mmap in {True,False} x array layout x per-thread read lists '
-        '(1-2 reads: multi-segment slice, single-segment slice, whole array via np.asarray / all-full index, '
-        'optionally inside a caller-held `with proxy._lock`) for 2-3 threads) x schedules enumerated '
+RULE = ('cases = (scenario in {proxy over an open BytesIO handle, over a minimal file-like without fileno/readinto, '
+        'over a real OS file object (np.memmap succeeds); keep_file_open=True proxy on a real file and on a .gz file} '
+        'x derivation history of further proxies over the same handle (copy(), two copies, copy of a copy, chains, '
+        'reshape() then copy(), copy() then reshape(), copy.copy() = __setstate__) with reads through any 2-3 of them '
+        'x mmap in {True,False} x array layout (F and C order) x per-thread read lists (1-2 reads: multi-segment '
+        'slice, single-segment slice, one segment covering all data, segment at the data offset, zero segments, '
+        'whole array via np.asarray / all-full index, optionally inside a caller-held `with proxy._lock`) for 2-3 '
+        'threads) x schedules enumerated '
         'systematically by stateless DFS with a bounded number of pre-emptions (quick <=2, thorough <=3/4), plus '
         'seeded random schedules incl. grants to blocked/finished threads, plus raw `read_segments` calls with '
-        'arbitrary segment lists sharing one lock. A case is non-trivial when its completed schedule switches '
+        'arbitrary segment lists sharing one lock. Reads through proxies of ONE copy()-family are checked by the '
+        'oracle and the model; reads mixing families (reshape()/copy.copy() take a new lock: outside the property) '
+        'are compared with the model only, which predicts the interference exactly. A case is non-trivial when its '
+        'completed schedule switches '
         'between two unfinished threads at least once; distinct by (configuration, completed schedule).')
 
 
@@ -1546,8 +1567,8 @@ def cases(rng, tier):
         add(cfg, 'raw-segs', 2, 100 if thorough else 40)
     # ---- G: lock topology after SEQUENCES of copy() / reshape() / copy.copy(): concurrent reads through any
     #         two or three proxies of the history (same family: oracle + correspondence; mixed: correspondence)
-    limG = 400 if thorough else 22
-    for rep in range(3 if thorough else 1):
+    limG = 120 if thorough else 22
+    for rep in range(1):
         for scn in ('fh', 'fhos') if thorough else ('fh',):
             layout = rng.choice(layouts_for(scn))
             for topo, reader_sets in topologies(rng, layout):
@@ -1558,9 +1579,10 @@ def cases(rng, tier):
                     add(cfg, 'topo', 3 if thorough else 2, limG)
     # ---- H: kinds of handle the caller may supply: BytesIO (np.memmap rejects it: fileno() raises), an object
     #         without fileno/readinto (AttributeError inside np.memmap; `read` + copy branch), a real OS file
-    #         object (np.memmap succeeds) — whole-array reads with the DEFAULT mmap=True racing sliced reads
-    limH = 600 if thorough else 36
-    for scn in ('fh', 'fhmin', 'fhos'):
+    #         object (np.memmap succeeds), and a `.gz` path with keep_file_open=True (persistent GzipFile: np.memmap
+    #         is not attempted) — whole-array reads with the DEFAULT mmap=True racing sliced reads
+    limH = 100 if thorough else 36
+    for scn in ('fh', 'fhmin', 'fhos', 'keepgz'):
         for mm in (1, 0):
             for ka, kb in (('whole', 'multi'), ('whole', 'single'), ('whole', 'whole'), ('whole', 'full1')):
                 if mm == 0 and not thorough and kb in ('whole', 'full1'):
@@ -1570,15 +1592,15 @@ def cases(rng, tier):
                     3 if thorough else 2, limH)
     # ---- K: single-segment shapes of read_segments: one segment covering ALL the data (not the whole-array
     #         path), a segment starting at the data offset, no segment at all — against each other kind
-    limK = 500 if thorough else 30
+    limK = 120 if thorough else 30
     for ka in ('full1', 'single0', 'empty'):
         for kb in KINDS2 if thorough else rng.sample(KINDS2, 3):
-            scn = rng.choice(['fh', 'fhmin', 'fhos', 'keep'])
+            scn = rng.choice(['fh', 'fhmin', 'fhos', 'keep', 'keepgz'])
             layout = rng.choice(layouts_for(scn))
             add(base_cfg(layout, scn, rng.randrange(2), gen_progs(rng, layout, [[ka], [kb]], scn)), 'seg-kinds',
                 3 if thorough else 2, limK)
     # ---- R: random schedules over random histories, handle kinds and all read kinds
-    nR = 1200 if thorough else 150
+    nR = 600 if thorough else 150
     for _ in range(nR):
         scn = rng.choice(['fh', 'fh', 'fhmin', 'fhos'])
         layout = rng.choice(layouts_for(scn))
